@@ -2,8 +2,7 @@
    Only statements, each closed by [exact]; proofs live in Proofs/GroupKeyProofs.v. *)
 From SV Require Import Model.GroupKey Proofs.GroupKeyProofs.
 
-(* the key encoder shared by the four sites (aggregator, counting, session, global window) after
-   the repair is injective on tuples of grouping values -- any numbers of columns, any bytes in the
+(* the length-prefixed key encoder of the aggregator after the repair is injective on tuples of grouping values -- any numbers of columns, any bytes in the
    strings (separators, NUL, empty), NULL, numbers, bools *)
 Theorem C04_enc_injective : forall a b : list kvalue, enc_tuple a = enc_tuple b -> a = b.
 Proof. exact enc_tuple_inj. Qed.
@@ -15,9 +14,32 @@ Theorem C04_segment_self_delimiting : forall v w x y,
 Proof. exact key_part_app_inj. Qed.
 Print Assumptions C04_segment_self_delimiting.
 
+(* the escaping encoder of the three window sites (columns joined by '|', '\' and '|' escaped
+   inside a column, NULL = "\N") is injective on tuples that agree column by column in kind:
+   every column NULL-or-string (all bytes, incl. '|', '\', the text "\N" itself) or
+   NULL-or-number, NULL-or-bool *)
+Theorem C04_window_enc_injective : forall sch a b,
+  conforms sch a -> conforms sch b -> enc_win a = enc_win b -> a = b.
+Proof. intros sch a b Ha Hb. apply enc_win_inj. eapply conforms_same_kind; eauto. Qed.
+Print Assumptions C04_window_enc_injective.
+
+Theorem C04_window_enc_injective_strings : forall a b,
+  Forall (fun v => of_kind KdStr v) a -> Forall (fun v => of_kind KdStr v) b -> length a = length b ->
+  enc_win a = enc_win b -> a = b.
+Proof. exact enc_win_inj_strings. Qed.
+Print Assumptions C04_window_enc_injective_strings.
+
+Theorem C04_window_enc_injective_numbers : forall a b,
+  Forall (fun v => of_kind KdInt v) a -> Forall (fun v => of_kind KdInt v) b -> length a = length b ->
+  enc_win a = enc_win b -> a = b.
+Proof. exact enc_win_inj_numbers. Qed.
+Print Assumptions C04_window_enc_injective_numbers.
+
 (* the per-site keys ("__global__" / "default" when there is no grouping column) identify the
-   tuple among rows of one query (same number of grouping columns) *)
-Theorem C04_site_keys_injective : forall g r1 r2, length (kvals r1) = length (kvals r2) ->
+   tuple among rows of one query (one schema: same number of grouping columns, one scalar type
+   per column) *)
+Theorem C04_site_keys_injective : forall g sch r1 r2,
+  conforms sch (ktuple_of r1) -> conforms sch (ktuple_of r2) ->
   (win_key g r1 = win_key g r2 <-> ktuple_of r1 = ktuple_of r2).
 Proof. exact win_key_iff. Qed.
 Print Assumptions C04_site_keys_injective.
@@ -41,8 +63,8 @@ Print Assumptions C04_group_partition.
 
 (* the same for the per-key maps of the keyed windows (sessionMap, global groups): keyed by the
    site key, rows of one query *)
-Theorem C04_group_partition_windows : forall g c rows,
-  Forall (fun r => length (kvals r) = c) rows ->
+Theorem C04_group_partition_windows : forall g sch rows,
+  Forall (fun r => conforms sch (ktuple_of r)) rows ->
   let res := kgroup_by (win_key g) rows in
   NoDup (map fst res)
   /\ (forall t, In t (map fst res) <-> exists r, In r rows /\ ktuple_of r = t)
@@ -83,7 +105,16 @@ Print Assumptions C04_windows_old_null_refuted.
 (* non-vacuity: the two tuples the old encoders confused get different keys, and are two groups *)
 Example C04_example :
   enc_tuple [KStr [97; 124; 98]; KStr [99]]%N <> enc_tuple [KStr [97]; KStr [98; 124; 99]]%N
+  /\ enc_win [KStr [97; 124; 98]; KStr [99]]%N <> enc_win [KStr [97]; KStr [98; 124; 99]]%N
+  /\ enc_win [KNull] <> enc_win [KStr [92; 78]]%N /\ enc_win [KNull] <> enc_win [KStr []]
+  /\ conforms [KdStr; KdStr] [KStr [97; 124; 98]; KNull]%N
   /\ length (kgroup [mkKRow 1 [Some (KStr [97; 124; 98]); Some (KStr [99])];
                      mkKRow 2 [Some (KStr [97]); Some (KStr [98; 124; 99])];
                      mkKRow 3 [None; Some (KStr [])]; mkKRow 4 [Some KNull; Some (KStr [])]]%N%Z) = 3.
-Proof. split; [intro H; apply enc_tuple_inj in H; discriminate H | reflexivity]. Qed.
+Proof.
+  split; [intro H; apply enc_tuple_inj in H; discriminate H|].
+  split; [intro H; vm_compute in H; discriminate H|].
+  split; [intro H; vm_compute in H; discriminate H|].
+  split; [intro H; vm_compute in H; discriminate H|].
+  split; [repeat constructor|reflexivity].
+Qed.
